@@ -378,6 +378,19 @@ where
     jobs.push(Job::new(job_name::<U>("i/div_rem"), move |ctx| {
         ctx.run("div_rem", ctx.budget(q(QUICK * 2), FACTOR), signed_pairs(sh), eval_i::<I>);
     }));
+    jobs.push(Job::new(job_name::<U>("sweep"), move |ctx| {
+        let full = ctx.tier() == vlib::Tier::Thorough;
+        // powers of two and their neighbours as dividends and divisors, at every bit position
+        ctx.enumerate("div_u", "position pairs for every bit position", position_pairs(sh, full), eval_u::<U>);
+        ctx.enumerate("div_i", "position pairs for every bit position", position_pairs(sh, full), eval_i::<I>);
+        let maxv = Pat(vec![0xffu8; sh.bytes]);
+        let m2 = maxv.clone();
+        ctx.enumerate("max_by_u", "MAX divided by 2^k - 1, 2^k, 2^k + 1 for every k", position_values(sh, full).map(move |d| (maxv.clone(), d)), eval_u::<U>);
+        let mut minp = vec![0u8; sh.bytes];
+        minp[sh.bytes - 1] = 0x80;
+        let minp = Pat(minp);
+        ctx.enumerate("min_by_i", "MIN and -1 divided by +-(2^k - 1), +-2^k, +-(2^k + 1) for every k", position_values(sh, full).flat_map(move |d| [(minp.clone(), d.clone()), (m2.clone(), d)]), eval_i::<I>);
+    }));
     jobs.push(Job::new(job_name::<U>("u/digit"), move |ctx| {
         ctx.run("digit", ctx.budget(q(QUICK / 2), FACTOR), (gen::pattern(sh), gen::digit_value(sh.digit_bytes)), eval_digit::<U>);
     }));
@@ -405,7 +418,7 @@ fn main() {
     runner::main(
         Property {
             id: "C03",
-            rule: "(dividend, divisor) pairs come from: (1) structured patterns with the divisor shaped to k = 1..N significant digits and 0..digit_bits-1 leading zeros in its top digit; (2) backwards construction n = q*d + r with r in {0, 1, d-1, d/2, random, d-delta} and extreme quotient digits; (3) Algorithm-D stress shapes scaled to each digit base (Hacker's Delight add-back and qhat=b+1 cases, dividends whose leading digits equal the divisor's, divisors b^k/2+-1 and b^k-1, all-ones dividend, add-back family n = q*d + d - delta with >=3-digit divisors); (4) signed: all sign combinations plus MIN, -1, +-1, +-2, n=+-d, (MIN,-1); (5) zero divisors for the checked forms. Every case checks / % div rem and the checked/wrapping/overflowing/saturating/strict forms of div, rem, div_euclid, rem_euclid, plus div_floor, div_ceil, (checked_)next_multiple_of, against a binary shift-subtract reference division and re-derives n = q*d + r from bnum's own outputs. NON-TRIVIAL: a shadow run of Algorithm D on the reference side says the multi-digit path is reached (divisor >= 2 digits and |n| >= |d|), or signed operands with non-zero remainder and a negative operand (rounding variants differ), or a special case (zero divisor, MIN/-1). distinct = distinct (profile, job, inputs) among non-trivial cases by 64-bit hash. 8-bit configuration enumerated completely.",
+            rule: "(dividend, divisor) pairs come from: (1) structured patterns with the divisor shaped to k = 1..N significant digits and 0..digit_bits-1 leading zeros in its top digit; (2) backwards construction n = q*d + r with r in {0, 1, d-1, d/2, random, d-delta} and extreme quotient digits; (3) Algorithm-D stress shapes scaled to each digit base (Hacker's Delight add-back and qhat=b+1 cases, dividends whose leading digits equal the divisor's, divisors b^k/2+-1 and b^k-1, all-ones dividend, add-back family n = q*d + d - delta with >=3-digit divisors); (4) signed: all sign combinations plus MIN, -1, +-1, +-2, n=+-d, (MIN,-1); (5) zero divisors for the checked forms. Every case checks / % div rem and the checked/wrapping/overflowing/saturating/strict forms of div, rem, div_euclid, rem_euclid, plus div_floor, div_ceil, (checked_)next_multiple_of, against a binary shift-subtract reference division and re-derives n = q*d + r from bnum's own outputs. NON-TRIVIAL: a shadow run of Algorithm D on the reference side says the multi-digit path is reached (divisor >= 2 digits and |n| >= |d|), or signed operands with non-zero remainder and a negative operand (rounding variants differ), or a special case (zero divisor, MIN/-1). distinct = distinct (profile, job, inputs) among non-trivial cases by 64-bit hash. 8-bit configuration enumerated completely. A deterministic SWEEP additionally enumerates, per configuration, position-specific inputs (2^k - 1, 2^k, 2^k + 1 with their negations and complements; carry / borrow chains and power-of-two products ending at every bit position k; every shift / rotate amount; every bit index; every float exponent) - all positions on types up to 1088 bits, a sparse selection of a few hundred positions on wider types in the quick tier, all positions in the thorough tier.",
             assumptions: &[
                 "digits()/from_digits()/to_bits()/from_bits() are the trusted observation channel",
                 "reference division is binary shift-and-subtract (no quotient-digit estimation), self-tested on every run",
